@@ -161,6 +161,22 @@ def U_S4r():
                     "4 inner states + 2 sinks, out-degree <= 2, vector (1/2,1/2) only, successors unordered, no parallel edges")
 
 
+def U_S5r():
+    tail, finals = _sinks(5)
+    opts = state_options(range(7), 2, VECT_HALF, unordered=True)
+    return Universe("U-S5r", 5, opts, tail, finals,
+                    "5 inner states + 2 sinks (7 states), out-degree <= 2, vector (1/2,1/2) only, successors unordered, no parallel edges; "
+                    "explored as an arithmetic progression of indices (prime stride), which varies every state's row")
+
+
+def U_S6r():
+    tail, finals = _sinks(6)
+    opts = state_options(range(8), 2, VECT_HALF, unordered=True)
+    return Universe("U-S6r", 6, opts, tail, finals,
+                    "6 inner states + 2 sinks (8 states), out-degree <= 2, vector (1/2,1/2) only, successors unordered, no parallel edges; "
+                    "explored as an arithmetic progression of indices (prime stride)")
+
+
 def reward_vectors(n_inner, n_total, values):
     """all reward vectors over `values` on the inner states, 0 on the sinks"""
     for r in itertools.product(values, repeat=n_inner):
@@ -807,3 +823,30 @@ def U_RB_games():
                 tl = [[(ACTIONS[0], 1), (ACTIONS[1], 2)], row(pa, 3), row(pb, 4), row(qa, 5), row(qb, 5), [(1, 7)], [(1, 7)], [(1, 7)]]
                 games.append(dict(rewards=[0, 0, 0, 0, 0, big, 0, 0], players=[chooser] + [PR] * 7, transition_list=tl, final_states=[7]))
     return games
+
+
+# ------------------------------------------------------------------------------------------------ U-PAIR
+
+def U_PAIR_games(finals_options=((4,), (3,), (3, 4))):
+    """a family made for ORDERED PAIRS (solve G1, then G2 in the same process): 5 states - entry 0, inner 1 and 2, absorbing 3 and 4 -
+    whose members coincide on one aspect and differ on another, so that state kept between two solves under a too coarse key is hit:
+    the same graph with other final states; the same rows with other owners; the same concatenated successor sequence grouped
+    differently into rows (1,2 | 3,4 | 3,4 against 1,2,3 | 4 | 3,4 and 1,2 | 3 | 4,3,4); a row with its successors swapped."""
+    shapes = [((1, 2), (3, 4), (3, 4)), ((1, 2), (4, 3), (3, 4)), ((1, 2, 3), (4,), (3, 4)), ((1, 2), (3,), (4, 3, 4)), ((2, 1), (3, 4), (4, 3))]
+    kinds = [(k0, k1, k2) for k0 in (P1, P2, PR) for (k1, k2) in ((PR, PR), (P1, PR), (PR, P2), (P2, P1), (P1, P1))]
+    vec = {1: (1,), 2: (0.5, 0.5), 3: (0.25, 0.25, 0.5)}
+    out = []
+    for shape in shapes:
+        for ks in kinds:
+            for fin in finals_options:
+                players, tl = [], []
+                for k, tg in zip(ks, shape):
+                    players.append(k)
+                    if k == PR:
+                        tl.append([(vec[len(tg)][i], t) for i, t in enumerate(tg)])
+                    else:
+                        tl.append([(ACTIONS[i], t) for i, t in enumerate(tg)])
+                players += [PR, PR]
+                tl += [[(1, 3)], [(1, 4)]]
+                out.append(game_of(players, tl, list(fin), [1, 2, 3, 0, 0]))
+    return out
